@@ -20,6 +20,14 @@ def is_memoised(fnode) -> bool:
     return False
 
 
+def is_context_manager(fnode) -> bool:
+    """decorated with contextlib.contextmanager"""
+    for d in getattr(fnode, "decorator_list", []):
+        if ast.unparse(d).split(".")[-1] == "contextmanager":
+            return True
+    return False
+
+
 def has_yield(fnode) -> bool:
     for n in ast.walk(fnode):
         if isinstance(n, (ast.Yield, ast.YieldFrom)):
@@ -216,6 +224,10 @@ class CallMixin:
                 m = self.find_method(ci, "__call__")
                 if m is not None:
                     return self.call(self.bind_method(fn, m, m.cls, site), pos, kw, st, fr, site, expr)
+                # `__call__ = other_method` in the class body
+                alias = self.obj_attr(fn, "__call__", st, fr, site)
+                if alias is not None and alias.op in ("BoundMethod", "Closure", "Func"):
+                    return self.call(alias, pos, kw, st, fr, site, expr)
             return self.generic_call(fn, pos, kw, st, fr, site, "call-on-object")
         if op == "Ext":
             return self.call_ext(fn, pos, kw, st, fr, site)
@@ -265,7 +277,13 @@ class CallMixin:
 
     # ------------------------------------------------------------ repo functions
     def call_repo(self, fi: FuncInfo, captured, self_node, pos, kw, st: St, fr: Frame, site,
-                  closure_self=None) -> Node:
+                  closure_self=None, cm_hook=None) -> Node:
+        if cm_hook is None and not isinstance(fi.node, ast.Lambda) and is_context_manager(fi.node):
+            # @contextmanager: calling it runs nothing yet - the body runs around the with-block (ex_With)
+            n = self.mk("CtxCall", (), (fi.qualname, self.g.serial()), site)
+            n.extra = {"cm": {"fi": fi, "captured": captured, "self_node": self_node, "pos": list(pos), "kw": dict(kw),
+                              "closure_self": closure_self}}
+            return n
         if len(fr.chain) >= MAX_DEPTH or any(f is fi for (_s, f) in fr.chain[-12:] if f is not None) \
                 and sum(1 for (_s, f) in fr.chain if f is fi) >= getattr(self, "recursion_limit", 2):
             self.effect("recursion-cut", site, st, fr, func=fi.qualname)
@@ -283,7 +301,9 @@ class CallMixin:
             if memo_key is not None and memo_key in self._memoised:
                 return self._memoised[memo_key]
         collect = False
-        if not isinstance(fnode, ast.Lambda) and has_yield(fnode) and not (
+        if cm_hook is not None:
+            pass
+        elif not isinstance(fnode, ast.Lambda) and has_yield(fnode) and not (
                 fi.qualname in self.analyse_generators and not any(f is fi for (_s, f) in fr.chain)):
             recursive = any((isinstance(x, ast.Call) and isinstance(x.func, ast.Name) and x.func.id == fi.name) or
                             isinstance(x, ast.YieldFrom) for x in ast.walk(fnode))     # delegation: may recurse
@@ -305,6 +325,7 @@ class CallMixin:
         if selfn is None:
             selfn = closure_self
         nfr = Frame(fi, fi.module, captured, fr.chain + ((site, fi),), len(st.pc), selfn, fi.cls)
+        nfr.cm_hook = cm_hook
         n_entry = len(self.g.nodes)
         entry_args = dict(locals_)
         cst = St(locals_, st.heap, st.cur, st.pc)
@@ -1119,6 +1140,11 @@ class CallMixin:
                 return self.mk("Tuple" if q.endswith("tuple") else "List", P[0].args, None, site)
             if P[0].op == "ListComp":
                 return P[0]
+            if P[0].op == "Obj" and P[0].extra and P[0].extra.get("tuple_fields") is not None and not kw:
+                # tuple(record): the fields of a named tuple, in order
+                return self.mk("Tuple" if q.endswith("tuple") else "List", tuple(P[0].extra["tuple_fields"]), None, site)
+            if P[0].op in ("Zip", "Enumerate", "DictValues") and not kw and self._dict_view_items(P[0]) is not None:
+                return self.mk("Tuple" if q.endswith("tuple") else "List", tuple(self._dict_view_items(P[0])), None, site)
             if P[0].op in ("Dict", "DictKeys", "DictItems", "Const") and not kw:
                 items = self.known_items(P[0]) if not (P[0].op == "Const" and isinstance(P[0].attr, str)) else None
                 if items is not None:
